@@ -237,9 +237,12 @@ def notes_singles(types):
     return out, len(types) * 2 * 4 * 2 * 4
 
 
-def notes_pairs():
+def notes_pairs(thorough=True):
+    """Ordered pairs of notes-master placeholders. quick: idx^2 over the first two idx values (a notes master with two
+    placeholders of one type — two slide images — is what seed C13-3 needs); thorough: idx^2 in full."""
     out = []
+    idxs = IDXS if thorough else IDXS[:2]
     for t1, t2 in itertools.product(NOTES_PAIR_TYPES, repeat=2):
-        for (i1, i2), (x1, x2) in itertools.product(itertools.product(IDXS, repeat=2), itertools.product(XFRMS, repeat=2)):
+        for (i1, i2), (x1, x2) in itertools.product(itertools.product(idxs, repeat=2), itertools.product(XFRMS, repeat=2)):
             out.append([[t1, None, i1, x1, None], [t2, None, i2, x2, None]])
-    return out, len(NOTES_PAIR_TYPES) ** 2 * 16 * 4
+    return out, len(NOTES_PAIR_TYPES) ** 2 * len(idxs) ** 2 * 4
